@@ -249,12 +249,14 @@ def decompose_and_order(graph, component, component_name, bo_start=0):
             scaffold_graph.add_edge(node1, "+", node2, "+", 0)
 
         else:
-            bubble_index = len(bubbles)
+            # segment names never contain whitespace, so a bubble can never get the name of a segment
+            # (a plain index collides with graphs whose segments are called 0, 1, 2, ...)
+            bubble_name = "bubble %d" % len(bubbles)
             bubbles.append(bc_inside_nodes)
-            scaffold_graph.add_node(str(bubble_index))
-            scaffold_node_types[str(bubble_index)] = "b"
+            scaffold_graph.add_node(bubble_name)
+            scaffold_node_types[bubble_name] = "b"
             for end_node in bc_end_nodes:
-                scaffold_graph.add_edge(str(bubble_index), "+", end_node, "+", 0)
+                scaffold_graph.add_edge(bubble_name, "+", end_node, "+", 0)
 
     logger.info(f"  Bubbles: {len(bubbles)}")
     logger.info(f"  Scaffold graph: {len(scaffold_graph)} nodes")
@@ -300,7 +302,7 @@ def decompose_and_order(graph, component, component_name, bo_start=0):
         ref_sn = new_graph[traversal_scaffold_only[0]].tags["SN"]
         end_offsets = []
         for end in (traversal[0], traversal[-1]):
-            members = bubbles[int(end)] if scaffold_node_types[end] == "b" else [end]
+            members = bubbles[int(end.split()[-1])] if scaffold_node_types[end] == "b" else [end]
             offsets = [
                 int(new_graph[n].tags["SO"][1])
                 for n in members
@@ -324,7 +326,7 @@ def decompose_and_order(graph, component, component_name, bo_start=0):
         if node_type == "s":
             node_order[node] = (bo, 0)
         elif node_type == "b":
-            for i, n in enumerate(sorted(bubbles[int(node)])):
+            for i, n in enumerate(sorted(bubbles[int(node.split()[-1])])):
                 node_order[n] = (bo, i + 1)
         else:
             assert False
